@@ -46,6 +46,7 @@ type Exec struct {
 	ltrack       *ledgerTrack
 	crashStart   int
 	badBlocks    map[int]bool
+	selSeq       int
 	faulting     bool
 	obsLedgerH   *int64 // ledger height to use for the frozen split when observing another node
 }
@@ -126,6 +127,7 @@ func (e *Exec) newWorld(kv map[string]string) error {
 	}
 	e.crashStart = len(kvmem.Log)
 	e.badBlocks = map[int]bool{}
+	e.selSeq = 0
 	w.Main = n
 	// root block / root tx as block 0 / tx 0
 	rb, _ := n.L.QueryBlock(n.L.GetMeta().RootBlockid)
@@ -628,6 +630,37 @@ func (e *Exec) checkState(tag string) {
 	if sum.Cmp(n.S.GetTotal()) != 0 {
 		e.violate("conservation", fmt.Sprintf("after %s: sum of unspent outputs + pending fees = %s but reported total = %s", tag, sum, n.S.GetTotal()), "")
 	}
+	// what a (non-locking) selector is handed must be unspent outputs of that address in the table: the in-memory output
+	// cache may not remember an output the table no longer holds (on every second check, so that histories with and
+	// without a selection before a spend are both exercised)
+	e.selSeq++
+	if e.selSeq%2 == 0 {
+		rows := map[string]*big.Int{}
+		for _, r := range n.ScanTable(pb.UTXOTablePrefix) {
+			it := &utxo.UtxoItem{}
+			if it.Loads([]byte(r[1])) == nil && it.Amount != nil {
+				rows[r[0]] = it.Amount
+			}
+		}
+		var names []string
+		for name := range e.w.AddrOf {
+			names = append(names, name)
+		}
+		sort.Strings(names)
+		for _, name := range names {
+			addr := e.w.AddrOf[name]
+			ins, _, _, err := n.S.SelectUtxos(addr, big.NewInt(1), false, false)
+			if err != nil {
+				continue
+			}
+			for _, in := range ins {
+				k := utxo.GenUtxoKeyWithPrefix(in.FromAddr, in.RefTxid, in.RefOffset)
+				if _, ok := rows[k]; !ok {
+					e.violate("selected-output-not-in-table", fmt.Sprintf("after %s: SelectUtxos(%s) hands out output %x.%d, which the output table does not hold (spent or undone)", tag, name, in.RefTxid[:4], in.RefOffset), "")
+				}
+			}
+		}
+	}
 	// C17
 	if !e.prunedEver {
 		if exp := e.expectedIrrev(); irrev != exp {
@@ -795,6 +828,9 @@ func (e *Exec) exec1(op string, pos []string, kv map[string]string, line string)
 		e.checkPool(line)
 		e.checkState(line)
 		return errEnum(errA) + "," + errEnum(errB)
+	case "kvengine":
+		kvEngineCase(e.out, e.scratch, uint64(atoi(pos[0])), atoi(pos[1]))
+		return "-"
 	case "selrace":
 		// two selectors with locking on one address: selector B runs while selector A is held at its k-th log call,
 		// for every k (cold cache: the selection scans the utxo table and locks output by output)
